@@ -827,6 +827,7 @@ func ruleLookupOrder(w *World, r *Report, e *Engine) {
 	}
 	r.floor("C01.lookup-order", "ascents to the outer scope", n, 2)
 	// looking a name up changes no scope
+	setTotalRule(w, r, e, "C01.set-total")
 	r.rule("C01.lookup-pure", "looking a name up (Get, GetNT, Find, FindNT and whatever they call in package env) writes no scope: no store to a field of an Env and no write into a scope's table, so a binding found through an enclosing scope is found there again, with its current value, on the next lookup (a copy kept in the inner scope would shadow a later def)")
 	np, nlk := 0, 0
 	seen := map[*ssa.Function]bool{}
